@@ -20,10 +20,12 @@ from thresha_glue import Fld, Dealer, thresha, np, show_list, show_matrix, exc_n
 import common  # noqa: E402
 
 LEVEL = 'proof'
-LEAN_MODULES = ['MpycV.Props.C13']
-LEAN_NAMESPACES = ['MpycV.C13']
+LEAN_MODULES = ['MpycV.Props.C13', 'MpycV.PropsGen.C13Src']   # + source tie of thresha.py (see props/c12.py)
+LEAN_NAMESPACES = ['MpycV.C13', 'MpycV.C13Src']
 REQUIRED_THEOREMS = ['shares_uniform', 'shares_uniform_le', 'view_independent_of_secret', 'view_probability',
-                     'shares_uniform_modP', 'coefficients_determined']
+                     'shares_uniform_modP', 'coefficients_determined',
+                     # source tie (PropsGen/C13Src.lean, generated from the current thresha.py)
+                     'random_split_src_eq', 'random_split_src_entry']
 RULE = ('case = (field, t, m, secret(s), complete enumeration of the dealer randomness, coalition of <= t parties); '
         'fields GF(3), GF(5), GF(7), GF(2^2), GF(2^3), GF(3^2); t in 1..2 (and t = 0: no randomness drawn), all m with '
         't < m <= min(|F|-1, 5); every secret of the field; every coalition A with |A| <= t; batches of two secrets for '
@@ -112,6 +114,12 @@ def check_uniform(ctx, F, t, m, secrets, variant, mats):
                                             'min_count': min(hist.values())}})
                 return False
     return ok
+
+
+def generate(ctx):
+    """source translator tie shared with C12: regenerate lean/MpycV/Generated/ThreshaSrc.lean from the current source"""
+    from props import c12
+    c12.generate(ctx)
 
 
 def run(ctx):
